@@ -386,7 +386,9 @@ func checkGeneratorLoops(c *Ctx, p *Prog, rule string) {
 	}
 	for k := range loopTable {
 		if seenKeys[k] == 0 {
-			c.Undecided(rule, "loop "+k, "listed in the termination table but not found in the code (renamed or restructured: the argument must be re-made)")
+			// the listed loop is gone (rewritten as a range loop, or the function was renamed): whatever
+			// loops the function has now were classified above on their own
+			c.Note("R09.9: listed loop %s no longer exists", k)
 		}
 	}
 	c.Note("R09.9 loops of the generator: %d range loops, %d counted, %d consuming, %d by a listed argument", nRange, nCounted, nCons, nTable)
